@@ -1396,7 +1396,8 @@ static int cfg_parse_internal(cfg_t *cfg, int level, int force_state, cfg_opt_t 
 				goto error;
 			}
 
-			if (opt && is_set(CFGF_DEPRECATED, opt->flags))
+			/* (not when this is the option's own default value being parsed) */
+			if (opt && opt != force_opt && is_set(CFGF_DEPRECATED, opt->flags))
 				cfg_handle_deprecated(cfg, opt);
 
 			if (comment)
@@ -1407,7 +1408,7 @@ static int cfg_parse_internal(cfg_t *cfg, int level, int force_state, cfg_opt_t 
 
 		switch (state) {
 		case 0:	/* expecting an option name */
-			if (opt && is_set(CFGF_DEPRECATED, opt->flags))
+			if (opt && opt != force_opt && is_set(CFGF_DEPRECATED, opt->flags))
 				cfg_handle_deprecated(cfg, opt);
 
 			switch (tok) {
